@@ -11,8 +11,8 @@ mkdir -p build/selftest
 ids=$(python3 -c "import json;print(' '.join(c['property_id'] for c in json.load(open('MANIFEST.json'))['checks']))")
 bad=0; total=0
 for id in $ids; do
-  build/asan/vsim check $id --scale $scale --workers 3  --seed 424242 --no-corpus --dump-fps build/selftest/$id.a >/dev/null 2>&1
-  build/asan/vsim check $id --scale $scale --workers 16 --seed 424242 --no-corpus --dump-fps build/selftest/$id.b >/dev/null 2>&1
+  build/asan/vsim check $id --scale $scale --workers 3  --seed 424242 --no-corpus --no-evidence --dump-fps build/selftest/$id.a >/dev/null 2>&1
+  build/asan/vsim check $id --scale $scale --workers 16 --seed 424242 --no-corpus --no-evidence --dump-fps build/selftest/$id.b >/dev/null 2>&1
   n=$(wc -l < build/selftest/$id.a)
   total=$((total+n))
   if cmp -s build/selftest/$id.a build/selftest/$id.b; then
@@ -23,5 +23,21 @@ for id in $ids; do
     bad=1
   fi
 done
+# the fine flavour (access-level preemption) for the properties ./check runs it for
+if [ -x build/fine/vsim ]; then
+for id in C03 C04 C06 C07 C08 C09 C10 C18; do
+  build/fine/vsim check $id --scale $scale --workers 3  --seed 424242 --no-corpus --no-evidence --dump-fps build/selftest/$id.fa >/dev/null 2>&1
+  build/fine/vsim check $id --scale $scale --workers 16 --seed 424242 --no-corpus --no-evidence --dump-fps build/selftest/$id.fb >/dev/null 2>&1
+  n=$(wc -l < build/selftest/$id.fa)
+  total=$((total+n))
+  if cmp -s build/selftest/$id.fa build/selftest/$id.fb; then
+    echo "$id (fine): $n runs, fingerprints identical with 3 and 16 workers"
+  else
+    d=$(diff build/selftest/$id.fa build/selftest/$id.fb | grep -c '^[<>]')
+    echo "$id (fine): MISMATCH ($d differing lines of $n)"; diff build/selftest/$id.fa build/selftest/$id.fb | head -4
+    bad=1
+  fi
+done
+fi
 echo "determinism: $total runs executed twice; $( [ $bad = 0 ] && echo all identical || echo DIFFERENCES FOUND )"
 exit $bad
